@@ -201,6 +201,18 @@ pub fn es_e_patterns() -> Vec<Vec<u8>> {
     ]
 }
 
+/// ES-E, sparse variant: short lengths, the capacity boundaries and every 301st length.
+pub fn es_e_sparse() -> Family {
+    let mut l: Vec<usize> = (0..=40).collect();
+    for r in [248..=252usize, 1553..=1559, 3114..=3119] {
+        l.extend(r);
+    }
+    l.extend((41..3100).step_by(301));
+    l.sort_unstable();
+    l.dedup();
+    Family::Periodic { patterns: es_e_patterns(), lengths: l }
+}
+
 /// ES-E: length sweep.
 pub fn es_e(thorough: bool) -> Family {
     let lengths: Vec<usize> = if thorough {
